@@ -425,6 +425,31 @@ Fixpoint serve (order : list N) (tm : tmap) (s : server) : option (server * tmap
       end
   end.
 
+(* the events of the epoll loop including connection reset and accept():
+     WIn k     EPOLLIN on socket k: one message (handle_client_sock)
+     WHup k    EPOLLERR|EPOLLHUP on socket k (cmds/recv.c:631): recv_trace_end() - the client entry of
+               k is removed and the socket closed, nothing is read
+     WNew k t  accept() returned k (the lowest free descriptor - possibly the number of a socket closed
+               before) for a new connection whose stream is t *)
+Inductive wake := WIn (k : N) | WHup (k : N) | WNew (k : N) (t : transport).
+Fixpoint serve_w (ws : list wake) (tm : tmap) (s : server) : option (server * tmap) :=
+  match ws with
+  | [] => Some (s, tm)
+  | WIn k :: r =>
+      match handle_client_sock (tm k) with
+      | Died => None
+      | Handled a t' => match apply k a s with
+                        | None => None
+                        | Some s' => serve_w r (tm_set k t' tm) s'
+                        end
+      end
+  | WHup k :: r => match apply k AEnd s with
+                   | None => None
+                   | Some s' => serve_w r (tm_set k [] tm) s'
+                   end
+  | WNew k t :: r => serve_w r (tm_set k t tm) s
+  end.
+
 (* ------------------------------------------------------------------ local recording *)
 (* what cmds/record.c writes into its own directory for the same run *)
 Definition local_write (m : msg) (es : dirent) : dirent :=
@@ -499,13 +524,15 @@ Record client_case := {
   cc_where : bytes;                (* directory that holds this client's data when the case is over
                                       (cc_dir, or cc_dir.old when a later client re-used the name) *)
   cc_body : list msg;              (* messages after MDir, before MEnd *)
+  cc_abort : bool;                 (* true: no MEnd; the connection is reset once the server has read all *)
   cc_wsched : list Z;              (* short-write schedule given to the interposed write/writev *)
   cc_rsched : list nat;            (* chunk sizes given to the interposed read of the server *)
   cc_wire : bytes;                 (* IMPL: bytes the sender put on the socket *)
   cc_local : dirent;               (* IMPL: local directory written by write_buffer(host = NULL) *)
   cc_recv : option dirent          (* IMPL: directory written by the receiver *)
 }.
-Definition cc_msgs (c : client_case) : list msg := MDir (cc_dir c) :: cc_body c ++ [MEnd].
+Definition cc_msgs (c : client_case) : list msg :=
+  MDir (cc_dir c) :: cc_body c ++ (if cc_abort c then [] else [MEnd]).
 
 (* model of the sender under the same schedule == captured wire bytes *)
 Definition agree_send (c : client_case) : bool :=
@@ -516,8 +543,12 @@ Fixpoint serve_seq (cs : list client_case) (s : server) : option server :=
   match cs with
   | [] => Some s
   | c :: r =>
-      let tm := tm_set (cc_sock c) (segment (cc_rsched c) (cc_wire c)) (fun _ => []) in
-      match serve (repeat (cc_sock c) (length (cc_msgs c))) tm s with
+      (* accept gives cc_sock (the same number again when an earlier connection was reset), one wake-up
+         per message, then a hang-up for an aborted connection *)
+      let ws := WNew (cc_sock c) (segment (cc_rsched c) (cc_wire c)) ::
+                map WIn (repeat (cc_sock c) (length (cc_msgs c))) ++
+                (if cc_abort c then [WHup (cc_sock c)] else []) in
+      match serve_w ws (fun _ => []) s with
       | None => None
       | Some (s', _) => serve_seq r s'
       end
@@ -563,6 +594,22 @@ Fixpoint bad_indices {A} (f : A -> bool) (l : list A) (i : nat) : list nat :=
   match l with
   | [] => []
   | x :: r => if f x then bad_indices f r (S i) else i :: bad_indices f r (S i)
+  end.
+
+(* an aborted connection may leave less than it meant to send, but only its OWN data: every file of [got]
+   (default.opts aside) is a prefix of the same file of [own] *)
+Fixpoint is_prefix (p x : bytes) : bool :=
+  match p, x with
+  | [], _ => true
+  | a :: p', b :: x' => (a =? b) && is_prefix p' x'
+  | _, _ => false
+  end.
+Fixpoint prefix_dir (got own : dirent) : bool :=
+  match got with
+  | [] => true
+  | (f, c) :: r =>
+      (if list_eqb f n_default_opts then true
+       else match flookup f own with Some c' => is_prefix c c' | None => false end) && prefix_dir r own
   end.
 
 (* digest-level checker for big / end-to-end cases: (name, length, digest) lists *)
